@@ -259,16 +259,16 @@ func u32s(v ...uint32) []byte {
 	return b
 }
 
-func EncSimple(id int) []byte             { return frame(id, nil) }
-func EncHave(i uint32) []byte             { return frame(MsgHave, u32s(i)) }
-func EncAllowedFast(i uint32) []byte      { return frame(MsgAllowedFast, u32s(i)) }
-func EncBitfield(b []byte) []byte         { return frame(MsgBitfield, b) }
-func EncRequest(i, b, l uint32) []byte    { return frame(MsgRequest, u32s(i, b, l)) }
-func EncCancel(i, b, l uint32) []byte     { return frame(MsgCancel, u32s(i, b, l)) }
-func EncReject(i, b, l uint32) []byte     { return frame(MsgReject, u32s(i, b, l)) }
+func EncSimple(id int) []byte               { return frame(id, nil) }
+func EncHave(i uint32) []byte               { return frame(MsgHave, u32s(i)) }
+func EncAllowedFast(i uint32) []byte        { return frame(MsgAllowedFast, u32s(i)) }
+func EncBitfield(b []byte) []byte           { return frame(MsgBitfield, b) }
+func EncRequest(i, b, l uint32) []byte      { return frame(MsgRequest, u32s(i, b, l)) }
+func EncCancel(i, b, l uint32) []byte       { return frame(MsgCancel, u32s(i, b, l)) }
+func EncReject(i, b, l uint32) []byte       { return frame(MsgReject, u32s(i, b, l)) }
 func EncPiece(i, b uint32, d []byte) []byte { return frame(MsgPiece, append(u32s(i, b), d...)) }
-func EncPort(p uint16) []byte             { return frame(MsgPort, []byte{byte(p >> 8), byte(p)}) }
-func EncKeepAlive() []byte                { return []byte{0, 0, 0, 0} }
+func EncPort(p uint16) []byte               { return frame(MsgPort, []byte{byte(p >> 8), byte(p)}) }
+func EncKeepAlive() []byte                  { return []byte{0, 0, 0, 0} }
 func EncExtended(id uint8, dict map[string]any, trailer []byte) []byte {
 	p := append([]byte{id}, gen.Bencode(dict)...)
 	p = append(p, trailer...)
@@ -278,10 +278,10 @@ func EncExtended(id uint8, dict map[string]any, trailer []byte) []byte {
 // Bitfield helpers (MSB first).
 type Bits []byte
 
-func NewBits(n int) Bits        { return make(Bits, (n+7)/8) }
-func (b Bits) Set(i int)        { b[i/8] |= 0x80 >> (uint(i) % 8) }
-func (b Bits) Clear(i int)      { b[i/8] &^= 0x80 >> (uint(i) % 8) }
-func (b Bits) Has(i int) bool   { return i/8 < len(b) && b[i/8]&(0x80>>(uint(i)%8)) != 0 }
+func NewBits(n int) Bits      { return make(Bits, (n+7)/8) }
+func (b Bits) Set(i int)      { b[i/8] |= 0x80 >> (uint(i) % 8) }
+func (b Bits) Clear(i int)    { b[i/8] &^= 0x80 >> (uint(i) % 8) }
+func (b Bits) Has(i int) bool { return i/8 < len(b) && b[i/8]&(0x80>>(uint(i)%8)) != 0 }
 func (b Bits) Count(n int) int {
 	c := 0
 	for i := 0; i < n; i++ {
